@@ -167,8 +167,27 @@ fn main() {
                 }
                 Ok(c) => {
                     let hash = std::panic::catch_unwind(|| minecraft_hash(&c.sid, &c.secret, &c.pubkey)).unwrap_or_default();
-                    server.arm(c.script.clone());
                     let adapter = adapters.entry(c.sid.clone()).or_insert_with(|| std::sync::Arc::new(MojangAdapter::default().with_server_id(c.sid.clone()))).clone();
+                    // the login BEFORE this one (another player, another secret) was given up on while its request was in flight -- what the
+                    // listener's deadline does to a connection: its future is dropped 100 ms into a request the service answers after 300 ms.
+                    // Whatever it left behind is none of this login's business; its own request is not part of the judged record.
+                    if let Some(prev) = vec.get("abandonedBefore").and_then(|p| p.as_str()) {
+                        server.arm(mock::Script { kind: "slowok".into(), reply_id: "f".repeat(32), reply_name: "Abandoned".into() });
+                        let (adapter, pubkey) = (adapter.clone(), c.pubkey.clone());
+                        let prev = prev.to_string();
+                        let uuid = Uuid::from_u128(0xabad_0000_0000_0000_0000_0000_0000_0001);
+                        let dropped = tokio::spawn(async move {
+                            let _ = tokio::time::timeout(
+                                Duration::from_millis(100),
+                                adapter.authenticate(&client_addr, ("play.example.org", 25565), 767, (&prev, &uuid), b"abandoned-secret", &pubkey),
+                            )
+                            .await;
+                        });
+                        let _ = dropped.await;
+                        tokio::time::sleep(Duration::from_millis(400)).await;
+                        let _ = server.take().await;
+                    }
+                    server.arm(c.script.clone());
                     let (name, secret, pubkey) = (c.name.clone(), c.secret.clone(), c.pubkey.clone());
                     let uuid = Uuid::from_u128(0x0123_4567_89ab_cdef_0123_4567_89ab_cdef);
                     // a task of its own: a panic in the code under test is data
